@@ -258,6 +258,10 @@ func pickScenario(rng *rand.Rand, focus string) scenario {
 	default:
 		panic("unknown focus " + focus)
 	}
+	// the scheduler's preemption extender is consulted now and then in the families with reserving policies and sized pools
+	if (focus == "c02" || focus == "c06" || focus == "c07" || focus == "c04") && rng.Intn(2) == 0 {
+		sc.Feat["preempt"] = true
+	}
 	// a third of the scenarios give pods without ranges a present-but-void args annotation
 	if rng.Intn(3) == 0 {
 		for i := range sc.Specs {
